@@ -4,6 +4,7 @@ CONSTANTS
  MaxCloses = 2
  MaxOps = 1
  KeyMode = "resolve"
+ LockRefTgt = TRUE
  Eager = FALSE
 SPECIFICATION Spec
 INVARIANTS TypeOK LocksNonNeg LocksExact MarkIsReach FallbackPresent CopyKeeps
